@@ -57,7 +57,8 @@ Viol(pre, ln, post, d0, d1) ==
   \* harness sanity: the driver must have reached the callback exactly once, in the intended gas class
   \cup { <<"X", "callback-not-reached-once">> : x \in IF o.calls = 1 THEN {} ELSE {1} }
   \cup { <<"X", "gas-class-missed">> : x \in
-         IF o.called /\ ((ln.a.remcls = "below") # Retryable(a.rem, a.user, a.max)) THEN {1} ELSE {} }
+         IF o.called /\ (((ln.a.remcls = "below") # Retryable(a.rem, a.user, a.max))
+                         \/ (ln.a.remcls = "ample" /\ a.rem < a.user)) THEN {1} ELSE {} }
   \cup { <<"X", "pre-state-not-as-specified">> : x \in IF G_Pre(pre, a) THEN {} ELSE {1} }
   \cup { <<"CONF", a.type \o ":" \o a.beh \o ":" \o ln.a.proto \o ":" \o E.res \o "/" \o res>> : x \in
          IF E.res = res /\ E.S = post /\ (o.called => o.lim = lim) THEN {} ELSE {1} }
